@@ -24,6 +24,10 @@ K32_FUNCS = [dict(fn='secp256k1_scalar_mul_512', short='scalar8x32_mul_512', def
              dict(fn='secp256k1_scalar_reduce_512', short='scalar8x32_reduce_512', defines=W32, style='bind', deps=['scalar8x32_check_overflow'], inl=['secp256k1_scalar_reduce']),
              dict(fn='secp256k1_fe_mul_inner', short='fe10x26_mul_inner', defines=W32, style='bind'),
              dict(fn='secp256k1_fe_sqr_inner', short='fe10x26_sqr_inner', defines=W32, style='bind'),
+             dict(fn='secp256k1_fe_impl_add', short='fe10x26_add', defines=W32), dict(fn='secp256k1_fe_impl_negate_unchecked', short='fe10x26_negate', defines=W32),
+             dict(fn='secp256k1_fe_impl_mul_int_unchecked', short='fe10x26_mul_int', defines=W32), dict(fn='secp256k1_fe_impl_half', short='fe10x26_half', defines=W32),
+             dict(fn='secp256k1_gej_double', short='gej_double32', defines=W32, style='bind', flatten=True, inl=['secp256k1_fe_impl_mul', 'secp256k1_fe_impl_sqr'],
+                  cps=['fe10x26_mul_inner', 'fe10x26_sqr_inner', 'fe10x26_add', 'fe10x26_negate', 'fe10x26_half', 'fe10x26_mul_int']),
              dict(fn='secp256k1_scalar_mul', short='scalar8x32_mul', defines=W32, style='bind', cps=['scalar8x32_mul_512', 'scalar8x32_reduce_512']),
              dict(fn='secp256k1_scalar_sqr', short='scalar8x32_sqr', defines=W32, style='bind', cps=['scalar8x32_sqr_512', 'scalar8x32_reduce_512'])]
 K32_PROOFS = [('scalar8x32_mul_512', 'Kernel/Scalar8x32Mul512.vo', 'scalar8x32_mul_512_correct'),
@@ -31,12 +35,19 @@ K32_PROOFS = [('scalar8x32_mul_512', 'Kernel/Scalar8x32Mul512.vo', 'scalar8x32_m
               ('scalar8x32_check_overflow', 'Kernel/Scalar8x32Check.vo', 'scalar8x32_check_overflow_correct'),
               ('scalar8x32_reduce_512', 'Kernel/Scalar8x32Reduce512.vo', 'scalar8x32_reduce_512_correct'),
               ('fe10x26_mul_inner', 'Kernel/Field10x26.vo', 'fe10x26_mul_inner_correct'), ('fe10x26_sqr_inner', 'Kernel/Field10x26.vo', 'fe10x26_sqr_inner_correct'),
-              ('scalar8x32_mul', 'Kernel/Scalar8x32Mul.vo', 'scalar8x32_mul_correct'), ('scalar8x32_sqr', 'Kernel/Scalar8x32Mul.vo', 'scalar8x32_sqr_correct')]
-K32_SHAPES = {'scalar8x32_mul_512': 16, 'scalar8x32_sqr_512': 8, 'scalar8x32_reduce_512': 16, 'scalar8x32_check_overflow': 8, 'scalar8x32_mul': 16, 'scalar8x32_sqr': 8, 'fe10x26_mul_inner': 'F20', 'fe10x26_sqr_inner': 'F10'}
+              ('scalar8x32_mul', 'Kernel/Scalar8x32Mul.vo', 'scalar8x32_mul_correct'), ('scalar8x32_sqr', 'Kernel/Scalar8x32Mul.vo', 'scalar8x32_sqr_correct'),
+              ('fe10x26_add', 'Kernel/Field10x26Wp.vo', 'fe10x26_add_wp'), ('fe10x26_negate', 'Kernel/Field10x26Wp.vo', 'fe10x26_negate_wp'), ('fe10x26_mul_int', 'Kernel/Field10x26Wp.vo', 'fe10x26_mul_int_wp'),
+              ('fe10x26_half', 'Kernel/Field10x26Wp.vo', 'fe10x26_half_wp'), ('gej_double32', 'Kernel/GejDouble32.vo', 'gej_double32_correct')]
+K32_SHAPES = {'scalar8x32_mul_512': 16, 'scalar8x32_sqr_512': 8, 'scalar8x32_reduce_512': 16, 'scalar8x32_check_overflow': 8, 'scalar8x32_mul': 16, 'scalar8x32_sqr': 8, 'fe10x26_mul_inner': 'F20', 'fe10x26_sqr_inner': 'F10',
+              'fe10x26_add': 'F20', 'fe10x26_negate': 'F10M', 'fe10x26_mul_int': 'F10M', 'fe10x26_half': 'F10', 'gej_double32': 'IF30'}
 N32 = [0xD0364141, 0xBFD25E8C, 0xAF48A03B, 0xBAAEDCE6, 0xFFFFFFFE, 0xFFFFFFFF, 0xFFFFFFFF, 0xFFFFFFFF]
 def raw32_inputs(rng, n):
-    if isinstance(n, str):      # 10x26 field limbs within the magnitude contract: below 2^30, every tenth below 2^26
+    if isinstance(n, str):      # 10x26 field limbs within the magnitude contract: below 2^30, every tenth below 2^26; I = a flag first, M = a small integer last
         out = []
+        if n.startswith('I'): out.append(rng.below(2)); n = n[1:]
+        tail = []
+        if n.endswith('M'): tail = [rng.choice([1, 2, 3, 8, 31])]; n = n[:-1]
+        if tail or out: return out + raw32_inputs(rng, n) + tail
         for j in range(int(n[1:])):
             w = 26 if j % 10 == 9 else 30
             out.append(rng.choice([0, 1, (1 << w) - 1, (1 << w) - 2, (1 << 26) - 1 if w == 30 else (1 << 22) - 1, rng.bits(w), 1 << (w - 1)]))
@@ -60,10 +71,12 @@ FIELD_CALLEES = ['k64_fe_mul_inner', 'k64_fe_sqr_inner', 'k64_fe_add', 'k64_fe_n
 K64_FUNCS += [dict(fn='secp256k1_fe_mul_inner', short='fe_mul_inner', key='k64_fe_mul_inner'), dict(fn='secp256k1_fe_sqr_inner', short='fe_sqr_inner', key='k64_fe_sqr_inner'),
               dict(fn='secp256k1_fe_impl_add', short='fe_impl_add', key='k64_fe_add'), dict(fn='secp256k1_fe_impl_negate_unchecked', short='fe_impl_negate_unchecked', key='k64_fe_negate'),
               dict(fn='secp256k1_fe_impl_half', short='fe_impl_half', key='k64_fe_half'), dict(fn='secp256k1_fe_impl_mul_int_unchecked', short='fe_impl_mul_int_unchecked', key='k64_fe_mul_int'),
-              dict(fn='secp256k1_gej_double', short='gej_double', key='gej_double', style='bind', flatten=True, cps=FIELD_CALLEES, inl=['secp256k1_fe_impl_mul', 'secp256k1_fe_impl_sqr'])]
+              dict(fn='secp256k1_gej_double', short='gej_double', key='gej_double', style='bind', flatten=True, cps=FIELD_CALLEES, inl=['secp256k1_fe_impl_mul', 'secp256k1_fe_impl_sqr']),
+              dict(fn='secp256k1_ge_set_gej_zinv', short='ge_set_gej_zinv', key='ge_set_gej_zinv', style='bind', flatten=True, cps=FIELD_CALLEES, inl=['secp256k1_fe_impl_mul', 'secp256k1_fe_impl_sqr']),
+              dict(fn='secp256k1_gej_rescale', short='gej_rescale', key='gej_rescale', style='bind', flatten=True, cps=FIELD_CALLEES, inl=['secp256k1_fe_impl_mul', 'secp256k1_fe_impl_sqr'])]
 K64_PROOFS = [('scalar_mul_512b', 'Kernel/ScalarMul4x64.vo', 'scalar_mul_512b_wp'), ('scalar_sqr_512b', 'Kernel/ScalarMul4x64.vo', 'scalar_sqr_512b_wp'),
               ('scalar_mul', 'Kernel/ScalarMul.vo', 'scalar_mul_correct'), ('scalar_sqr', 'Kernel/ScalarMul.vo', 'scalar_sqr_correct'),
-              ('gej_double', 'Kernel/GejDouble.vo', 'gej_double_correct')]
+              ('gej_double', 'Kernel/GejDouble.vo', 'gej_double_correct'), ('ge_set_gej_zinv', 'Kernel/GroupSmall.vo', 'ge_set_gej_zinv_correct'), ('gej_rescale', 'Kernel/GroupSmall.vo', 'gej_rescale_correct')]
 PROOFS = {'secp256k1_fe_mul_inner': ('Kernel/Field5x52.vo', 'fe_mul_inner_correct'),
           'secp256k1_fe_sqr_inner': ('Kernel/Field5x52Sqr.vo', 'fe_sqr_inner_correct')}
 # proofs over the regenerated branch-free primitives: (function, .vo, theorem)
@@ -166,7 +179,7 @@ def limb_cases(rng, n, nin):
 RAW_SHAPES = {   # input shapes of the raw ops: S scalar limbs (4 x u64), F field limbs (5), T storage limbs (4), I flag, M magnitude, P non-negative int
  'scalar_is_zero': 'S', 'scalar_cmov': 'SSI', 'fe_impl_cmov': 'FFI', 'fe_storage_cmov': 'TTI', 'int_cmov': 'PPI', 'scalar_check_overflow': 'S',
  'scalar_is_high': 'S', 'scalar_cond_negate': 'sI', 'scalar_negate': 's', 'fe_impl_normalize': 'F', 'fe_impl_normalize_weak': 'F',
- 'fe_impl_normalizes_to_zero': 'F', 'fe_impl_negate_unchecked': 'fM', 'fe_impl_add': 'ff', 'fe_impl_half': 'f', 'fe_impl_is_odd': '1', 'scalar_mul_512': 'SS', 'scalar_sqr_512': 'S', 'scalar_reduce_512': 'SS', 'fe_impl_set_b32_limit': 'B', 'fe_impl_get_b32': 'F', 'gej_double': 'Iggg', 'scalar_eq': 'SE', 'scalar_set_b32': 'N', 'scalar_get_b32': 'S', 'scalar_add': 'ss', 'scalar_half': 's', 'scalar_mul_512b': 'SS', 'scalar_sqr_512b': 'S', 'scalar_mul': 'SS', 'scalar_sqr': 'S'}
+ 'fe_impl_normalizes_to_zero': 'F', 'fe_impl_negate_unchecked': 'fM', 'fe_impl_add': 'ff', 'fe_impl_half': 'f', 'fe_impl_is_odd': '1', 'scalar_mul_512': 'SS', 'scalar_sqr_512': 'S', 'scalar_reduce_512': 'SS', 'fe_impl_set_b32_limit': 'B', 'fe_impl_get_b32': 'F', 'gej_double': 'Iggg', 'ge_set_gej_zinv': 'Iggg', 'gej_rescale': 'gggg', 'scalar_eq': 'SE', 'scalar_set_b32': 'N', 'scalar_get_b32': 'S', 'scalar_add': 'ss', 'scalar_half': 's', 'scalar_mul_512b': 'SS', 'scalar_sqr_512b': 'S', 'scalar_mul': 'SS', 'scalar_sqr': 'S'}
 N_LIMBS = [0xBFD25E8CD0364141, 0xBAAEDCE6AF48A03B, 0xFFFFFFFFFFFFFFFE, 0xFFFFFFFFFFFFFFFF]
 def raw_inputs(rng, shape):
     v = []
